@@ -94,6 +94,12 @@ class JSDefCompiler:
 
         raise RuntimeError(f"No type found for alias: {td.name}")
 
+    def generate_definition(self, obj: Union[TypeAlias, SDF, MDF]) -> str:
+        """A definition of the struct or message section (see Parser.emission_groups)"""
+        if isinstance(obj, TypeAlias):
+            return self.generate_type_alias(obj) + "\n"
+        return self.generate_obj(obj) + "\n\n"
+
     def generate_obj(self, struct: Union[SDF, MDF]) -> str:
         if isinstance(struct, MDF):
             top_field = "MDF"
@@ -118,7 +124,11 @@ class JSDefCompiler:
             elif field.type_name in self.parser.struct_defs.keys():
                 ftype = f"RTMA.SDF.{field.type_name}"
             elif field.type_name in self.parser.aliases.keys():
-                ftype = f"RTMA.aliases.{field.type_name}"
+                if isinstance(self.parser.aliases[field.type_name].type_obj, SDF):
+                    # aliases of structs are registered next to the structs
+                    ftype = f"RTMA.SDF.{field.type_name}"
+                else:
+                    ftype = f"RTMA.aliases.{field.type_name}"
             else:
                 raise RuntimeError(f"Unknown field name {field.name} in {struct.name}")
 
@@ -182,8 +192,9 @@ class JSDefCompiler:
 
             # RTMA.typedefs
             f.write("// Type Aliases\n")
+            early_aliases, struct_section, msg_section = self.parser.emission_groups()
             f.write("RTMA.aliases =  {};\n\n")
-            for obj in self.parser.aliases.values():
+            for obj in early_aliases:
                 f.write(self.generate_type_alias(obj))
             f.write("\n")
 
@@ -210,17 +221,15 @@ class JSDefCompiler:
 
             # RTMA.SDF
             f.write("// Struct Definitions\n")
-            f.write("RTMA.SDF = {};\n\n")
-            for obj in self.parser.struct_defs.values():
-                f.write(self.generate_obj(obj))
-                f.write("\n\n")
+            f.write("RTMA.SDF = {};\n")
+            f.write("RTMA.MDF = {};\n\n")
+            for obj in struct_section:
+                f.write(self.generate_definition(obj))
 
             # RTMA.MDF
             f.write("// Message Definitions\n")
-            f.write("RTMA.MDF = {};\n\n")
-            for obj in self.parser.message_defs.values():
-                f.write(self.generate_obj(obj))
-                f.write("\n\n")
+            for obj in msg_section:
+                f.write(self.generate_definition(obj))
 
             # RTMA.MDF
             f.write("// Message Definition Hashes\n")
